@@ -13,6 +13,7 @@ R4 length refusal : AttestedCredentialData::new returns Ok only through the succ
                     private and the only other constructor is from_reader (u16-bounded by type).
 Not decided: round-trip equality for all values, behaviour on every truncation inside ciborium/coset.
 """
+import re
 from . import core, flow, names, intervals, normal, summary
 
 presence_selection = flow.presence_selection
@@ -118,6 +119,14 @@ def run(chk):
             ok3 = all(has(x, lambda y: y == SELF_ACD) for x in seg2) and bool(seg2)
         chk.ob("R1 writer layout", "R1|to_vec|3 attested credential data (optional)", ok3, where(tv), "segment 3 = present iff self.attested_credential_data is Some: %s" % ([flow.term_str(x)[:60] for x in seg2] or flow.term_str(segs[3])[:200]))
         c4 = optional_segment(segs[4], "extensions")
+        if c4 is not None and isinstance(c4, tuple) and len(c4) == 4 and c4[0] == "call" and c4[1] in p.bodies:
+            # the CBOR encoding done by a private helper named where the closure would be: read the helper's own value
+            b4 = p.bodies[c4[1]]
+            if len(b4.return_blocks()) == 1 and len(c4[2]) == b4.arg_count:
+                v4 = N.norm(flow.Terms(p, b4).place(0, (), b4.return_blocks()[0], "t"))
+                for k4, a4 in enumerate(c4[2]):
+                    v4 = summary.replace(v4, ("param", k4 + 1), a4)
+                c4 = flow.simplify_term(v4)
         ok4 = c4 is not None and c4[0] == "upd" and names.is_(c4[1], "ciborium::ser::into_writer") and has(c4[3], lambda x: x == ("payload", ("field", ("param", 1), "extensions"))) and flow.byte_segments(c4[2]) == []
         chk.ob("R1 writer layout", "R1|to_vec|4 extensions cbor (optional)", ok4, where(tv), "segment 4 = present iff self.extensions is Some: %s" % (flow.term_str(c4)[:160] if c4 else flow.term_str(segs[4])[:160]))
     ii = tv
@@ -128,8 +137,8 @@ def run(chk):
     if len(seg2) == 4:
         ag = p.adts.get("passkey_types::ctap2::aaguid::Aaguid")
         agty = ag["variants"][0]["fields"][0]["ty"] if ag else "?"
-        if "Self::LEN" in agty:
-            agty = agty.replace("Self::LEN", str(p.const_bits("passkey_types::ctap2::aaguid::Aaguid::LEN")))
+        # an array length spelled as an associated constant of the type (`[u8; Self::LEN]`, whatever it is called): its value
+        agty = re.sub(r"Self::([A-Za-z_][A-Za-z0-9_]*)", lambda m: str(p.const_bits("passkey_types::ctap2::aaguid::Aaguid::" + m.group(1))), agty)
         chk.ob("R1 writer layout", "R1|acd|0 aaguid[16]", seg2[0] == ("field", ("field", SELF_ACD, "aaguid"), "0") and agty == "[u8; 16]", where(ii), "segment 0 = %s : %s" % (flow.term_str(seg2[0]), agty))
         ok = is_call(seg2[1], "u16::to_be_bytes") and has(seg2[1], lambda x: is_call(x, "TryFrom::try_from") or is_call(x, "TryInto::try_into")) and has(seg2[1], lambda x: x == ("field", SELF_ACD, "credential_id")) and has(seg2[1], lambda x: is_call(x, "Vec::len") or is_call(x, "slice::len"))
         chk.ob("R1 writer layout", "R1|acd|1 id length be16", ok, where(ii), "segment 1 = %s" % flow.term_str(seg2[1]))
